@@ -335,6 +335,7 @@ func checkSeekTables(p *Program, r *Report) {
 		r.floor("DT-DESCEND.descend", nDesc, 1, "descent iterations")
 	}
 	guarded(r, []string{"DESCEND-DECREASES"}, func() { checkDescendDecreases(p, r) })
+	guarded(r, []string{"SEEK-NO-SHORTCUT"}, func() { checkSeekNoShortcut(p, r) })
 }
 
 // READ-WIDTH: the table reader tells padded from unpadded blocks by looking at
@@ -575,4 +576,93 @@ func guarded(r *Report, rules []string, f func()) {
 		}
 	}()
 	f()
+}
+
+// SEEK-NO-SHORTCUT (C02): a seek yields the scan suffix from the key on, which
+// may well start at a later key than the one asked for.  The only thing a
+// table can say without reading a block is "I have no section of that kind".
+// On every path of the Reader's record seek that answers with the iterator that
+// never yields (and no error) without having called the block-level seek, the
+// section was found absent; nothing about the key decides it.
+func checkSeekNoShortcut(p *Program, r *Report) {
+	// the iterator that never yields: Next is one block returning (false, nil)
+	var emptyT *types.Named
+	for _, f := range p.Funcs {
+		if f.Name() != "Next" || f.Signature.Recv() == nil || len(f.Blocks) != 1 {
+			continue
+		}
+		ret, ok := f.Blocks[0].Instrs[len(f.Blocks[0].Instrs)-1].(*ssa.Return)
+		if !ok || len(ret.Results) != 2 {
+			continue
+		}
+		c0, ok0 := ret.Results[0].(*ssa.Const)
+		c1, ok1 := ret.Results[1].(*ssa.Const)
+		if !ok0 || !ok1 || c0.Value == nil || c0.Value.String() != "false" || !c1.IsNil() {
+			continue
+		}
+		rt := f.Signature.Recv().Type()
+		if pt, ok := rt.(*types.Pointer); ok {
+			rt = pt.Elem()
+		}
+		if n, ok := rt.(*types.Named); ok {
+			emptyT = n
+		}
+	}
+	if emptyT == nil {
+		fatalf("unresolved anchor: the iterator type that never yields")
+	}
+	readerT := p.namedType("Reader")
+	n := 0
+	for _, f := range p.Funcs {
+		sig := f.Signature
+		if f.Parent() != nil || sig.Recv() == nil || sig.Params().Len() != 1 || sig.Results().Len() != 2 {
+			continue
+		}
+		if pt, ok := sig.Recv().Type().(*types.Pointer); !ok || !types.Identical(pt.Elem(), readerT) {
+			continue
+		}
+		if _, ok := sig.Params().At(0).Type().Underlying().(*types.Interface); !ok {
+			continue
+		}
+		if _, ok := sig.Results().At(0).Type().Underlying().(*types.Interface); !ok || types.TypeString(sig.Results().At(1).Type(), nil) != "error" {
+			continue
+		}
+		fk := funcKey(f)
+		cfg := &simCfg{Event: map[string]bool{"(*Reader).seek": true}, Pure: map[string]bool{"method:(record).typ": true, "method:(record).key": true}, NoLoopSamples: true}
+		c, _ := runSim(p, f, cfg, nil)
+		for _, s := range c.Samples {
+			if s.Kind != "ret" || s.Panic || s.St.truth(tEq(s.Vals[1], tNil)) == 0 {
+				continue
+			}
+			v := s.Vals[0]
+			if v.Op != "alloc" || v.Typ == nil || !types.Identical(v.Typ, emptyT) {
+				continue
+			}
+			if hasEvent(s.Events, "(*Reader).seek") != nil {
+				continue // answered after reading
+			}
+			n++
+			absent := false
+			for _, k := range sortedFactKeys(s.St) {
+				t := s.St.fterm[k]
+				if t != nil && !s.St.facts[k] && strings.Contains(k, "Present") {
+					absent = true
+				}
+			}
+			key := fk + " / 'no records' without reading only for an absent section"
+			// no other branch may have been decided on the way
+			nFacts := 0
+			for _, k := range sortedFactKeys(s.St) {
+				if !strings.Contains(k, "Present") {
+					nFacts++
+				}
+			}
+			if !absent || nFacts > 0 {
+				r.violate("SEEK-NO-SHORTCUT", key, p.pos(f.Pos()), "the table answers a seek with the iterator that never yields, without reading a block, on a path decided by something else than the absence of the section (for instance the key or update index sought): records after the sought key that belong to the scan suffix are not returned", witnessOf(p, s.St.trace))
+			} else {
+				r.ok("SEEK-NO-SHORTCUT", key, "empty answer without reading => section not present, and nothing else was tested")
+			}
+		}
+	}
+	r.floor("SEEK-NO-SHORTCUT", n, 1, "paths of the Reader's record seek answering with the never-yielding iterator before reading")
 }
